@@ -35,7 +35,8 @@ CAT = [
     ('""', ""), ('"a"', "a"), ('"ab"', "ab"), ('"a" + "b"', "ab"), ('"xab"[1:]', "ab"), ('"%s" % "ab"', "ab"),
     ('"{}b".format("a")', "ab"), ('"".join(["a", "b"])', "ab"), ('intern("ab")', "ab"), ('host_str("ab")', "ab"),
     ('"AB".lower()', "ab"), ('str(12)', "12"), ('"12"', "12"), ('"1" + "2"', "12"), ('"b"', "b"), ('"B"', "B"), ('"a\\u00e9"', "aé"),
-    ('"a" + "\\u00e9"', "aé"), ('"\\U0001F600"', "\U0001F600"), ('"ab" * 1', "ab"), ('"ab"[:]', "ab"), ('"abc"[:-1]', "ab"), ('"1"', "1"),
+    ('"a" + "\\u00e9"', "aé"), ('"\\u00e9"', "é"), ('"a\\u00e9"[1]', "é"), ('"\\u00c9".lower()', "é"), ('"%s" % "\\u00e9"', "é"),
+    ('"".join(["\\u00e9"])', "é"), ('"a"[0]', "a"), ('"A".lower()', "a"), ('"\\U0001F600"[0]', "\U0001F600"), ('"x\\u0416"[1:]', "Ж"), ('"\\u0416"', "Ж"), ('"\\U0001F600"', "\U0001F600"), ('"ab" * 1', "ab"), ('"ab"[:]', "ab"), ('"abc"[:-1]', "ab"), ('"1"', "1"),
     ("()", ()), ("(1,)", (1,)), ("(1, 2)", (1, 2)), ("tuple([1, 2])", (1, 2)), ("(1,) + (2,)", (1, 2)), ("(1.0, 2)", (1.0, 2)),
     ("(1, (2, 3))", (1, (2, 3))), ("(1, (2, 3.0))", (1, (2, 3.0))), ('("a", 1)', ("a", 1)), ('("a",) + (1,)', ("a", 1)),
     ("(2, 1)", (2, 1)), ("(1, 2, 3)[:2]", (1, 2)), ("(9223372036854775808,)", (2 ** 63,)), ("(9223372036854775808.0,)", (2.0 ** 63,)),
@@ -189,6 +190,26 @@ def run(tier):
     for i in lit_idx:
         lit_lines.append("emit([" + ", ".join(f"({CAT[i][0]}) == ({CAT[j][0]})" for j in lit_idx) + "])")
     specs.append({"id": len(specs), "steps": ["\n".join(lit_lines) + "\n"], "opts": {"dialect": "all"}})
+    # mixed: runtime value (from the list) against each construction written in place (constant operand visible to the compiler)
+    mixed_lines = ["C = [\n" + "".join(f"    {e},\n" for e, _ in CAT) + "]"]
+    for j in range(n):
+        mixed_lines.append(f"emit([(a == ({CAT[j][0]}), ({CAT[j][0]}) == a, a != ({CAT[j][0]})) for a in C])")
+    specs.append({"id": len(specs), "steps": ["\n".join(mixed_lines) + "\n"], "opts": {"dialect": "all"}})
+    mixed_def = ["C = [\n" + "".join(f"    {e},\n" for e, _ in CAT) + "]", "def mx():"]
+    for j in range(n):
+        mixed_def.append(f"    emit([(a == ({CAT[j][0]}), ({CAT[j][0]}) == a, a != ({CAT[j][0]})) for a in C])")
+    mixed_def.append("mx()")
+    specs.append({"id": len(specs), "steps": ["\n".join(mixed_def) + "\n"], "opts": {"dialect": "all"}})
+    # large sorts (thresholds of the sort implementation): stability with many ties
+    big = ("def st(n, m):\n    l = [((i * 37) % m, i) for i in range(n)]\n    s1 = sorted(l, key = lambda p: p[0])\n"
+           "    ok = all([s1[i][0] < s1[i + 1][0] or (s1[i][0] == s1[i + 1][0] and s1[i][1] < s1[i + 1][1]) for i in range(n - 1)])\n"
+           "    s2 = sorted(l, key = lambda p: p[0], reverse = True)\n"
+           "    ok2 = all([s2[i][0] > s2[i + 1][0] or (s2[i][0] == s2[i + 1][0] and s2[i][1] < s2[i + 1][1]) for i in range(n - 1)])\n"
+           "    mixed = sorted([float(i % m) if i % 2 else i % m for i in range(n)])\n"
+           "    ok3 = all([mixed[i] <= mixed[i + 1] for i in range(n - 1)]) and [type(x) for x in mixed] == [type(x) for x in sorted(mixed)]\n"
+           "    return [ok, ok2, ok3, sorted(s1) == sorted(l)]\n"
+           "emit([st(n, m) for n in [0, 1, 2, 15, 16, 17, 20, 21, 22, 31, 32, 33, 34, 47, 64, 65, 100, 257] for m in [1, 2, 3, 7]])\n")
+    specs.append({"id": len(specs), "steps": [big], "opts": {"dialect": "all"}})
     # sorting: stability / permutation / order, per orderable group
     def no_rounding(i):
         return not any(is_rounding_pair(CAT[i][1], CAT[j][1]) for j in range(n) if kind(CAT[j][1]) == "num")
@@ -277,6 +298,29 @@ def run(tier):
                         viol("set-member", i, j, f"b in set([a]) = {s_} but a == b is {me}", mode)
         # grouping through one big dict: classes must be exactly the model's equivalence classes (nan excluded)
         # (reported through the pairwise checks above; here only count)
+    # mixed matrices (module level and inside a def)
+    for mi, mname in ((4, "mixed"), (5, "mixed-def")):
+        o = outs[mi]
+        if "crash" in o or "panic" in o or o["steps"][0]["err"]:
+            res.violation("C09:crash", {"mode": mname, "out": str(o)[:1500]})
+            continue
+        for j, row in enumerate(o["steps"][0]["out"]):
+            cells = row[4:-1].split("),(")
+            for i, cell in enumerate(cells):
+                checks += 1
+                a, b, c = cell.strip("()").split(",")
+                me = model_eq(CAT[i][1], CAT[j][1])
+                if is_rounding_pair(CAT[i][1], CAT[j][1]) and (a == "T") == (rounded_cmp(CAT[i][1], CAT[j][1]) == 0) and a == b and a != c:
+                    if (a == "T") != me:
+                        viol("int-float-rounding:eq", i, j, f"runtime == literal gives {a}, exact values equal: {me}", mname)
+                    continue
+                if (a == "T") != me or (b == "T") != me or (c == "T") == me:
+                    viol("eq-runtime-vs-literal", i, j, f"(a == lit, lit == a, a != lit) = ({a},{b},{c}), abstract values equal: {me}", mname)
+    o = outs[6]
+    if "crash" in o or "panic" in o or o["steps"][0]["err"]:
+        res.violation("C09:sort-crash", {"out": str(o)[:1500]})
+    elif "F" in o["steps"][0]["out"][0]:
+        res.violation("C09:sorted-large", {"rows": o["steps"][0]["out"][0][:3000]})
     # literal matrix
     o = outs[3]
     if "crash" in o or "panic" in o or o["steps"][0]["err"]:
@@ -293,7 +337,7 @@ def run(tier):
                     else:
                         viol("eq-literal", i, j, f"folded == gives {x}, abstract values equal: {me}", "literal")
     # sorting
-    o = outs[4]
+    o = outs[7]
     if "crash" in o or "panic" in o or o["steps"][0]["err"]:
         res.violation("C09:sort-crash", {"out": str(o)[:1500]})
     else:
